@@ -281,6 +281,28 @@ def check_current(ctx):
     must_pass_before_success(ctx, "T1-current-order", "write->rename", f, None,
                              lambda e: is_call(e, "ldb_rename_file"),
                              "success of ldb_set_current_file implies the rename happened")
+    # the rename is the commit point: a failure reported after it makes the caller delete the MANIFEST that CURRENT
+    # now names.  Nothing fallible is reported after a successful rename(2) / ldb_rename_file.
+    from ..rules import returned_after, never_after
+    rf = ctx.fn("ldb_rename_file", "src/util/env_unix_impl.h")
+
+    def rename_ok(lit):
+        if lit[0] in ("case", "default"):
+            return False
+        from ..paths import norm_literal
+        for op, a, b2 in norm_literal(lit[0], lit[1]):
+            if op == "==" and ((a.startswith("rename(") and b2 == "0") or (b2.startswith("rename(") and a == "0")):
+                return True
+        return False
+    vals = returned_after(ctx, rf, arm_edge=rename_ok)
+    ctx.check(vals == {0}, "T1-current-commit-point", "rename_file", rf.name, rf.loc,
+              "once rename(2) succeeded ldb_rename_file reports success", "after a successful rename(2) ldb_rename_file can return %s" % sorted(map(str, vals)))
+    never_after(ctx, "T1-current-commit-point", "set_current_file", f, lambda e: is_call(e, "ldb_rename_file"),
+                lambda e: e["e"] == "asg" and key(e["lhs"]) == "rc" and not key(e["rhs"]).startswith("ldb_rename_file("),
+                "the status of the rename is the status of ldb_set_current_file")
+    rets = [key(e.get("x")) for b, i, e in f.events("ret") if e.get("x") is not None and const_val(e.get("x")) is None]
+    ctx.check(rets == ["rc"], "T1-current-commit-point", "set_current_file:returns-rc", f.name, f.loc,
+              "ldb_set_current_file returns the collected status", "ldb_set_current_file returns %s" % rets)
     # ldb_write_file: sync (when asked) before close, close before success
     w = ctx.fn("ldb_write_file", "src/util/env.c")
     must_pass_before_success(ctx, "T1-writefile-sync", "sync-when-asked", w, lambda e: is_call(e, "ldb_wfile_append"),
@@ -302,6 +324,8 @@ def check_current(ctx):
 
 
 def check(ctx):
+    from . import c14
+    c14.check_level_loops(ctx)     # the MANIFEST snapshot covers every level
     witness.run(ctx, "C17")
     check_layout(ctx)
     check_recover(ctx)
